@@ -186,6 +186,29 @@ CHECKS = {
         "explanation": "every node of sampled trees vs extracted models and structural predicates",
         "assumptions": ["two seats"],
     },
+
+    "C09": {
+        "harness": ["c09", "cfr"], "level": "proof", "spec_prefix": ["c09_"],
+        "technique": "Coq theorems over exact rationals on the model of policy_vector (valid distribution, floor epsilon, uniform / proportional cases, divisor >= 1 from the regenerated flag) + per-run replay of policy_vector on real information sets under chosen stored regrets and epoch counters incl. 0",
+        "level_text": "Theorems over the rational instance of the executable model of cumulated_regret / policy_vector: for every regret vector and every epoch counter (0 included, through the regenerated divisor flag) the result is a probability distribution over exactly the actions, proportional to the positive part of the regrets up to the floor, uniform when none is positive. Per run policy_vector is called through the public API on real information sets (1-13 actions) of sampled trees under profiles holding chosen regrets (signs, zeros, denormals, 1e30, equal, at the clamp) and epoch counters {0,1,2,3,390,391,392,999999,1000000}; the result is compared with the binary32-rounded instance of the model and judged (range, sum, proportionality, no abort); recorded regrets of sampled trees are checked finite and clamped.",
+        "level_note": "Trusted: Coq kernel, model (validated per run), translator flag, extraction + glue, harness + hooks. The binary32 no-abort claim (rounding monotonicity) is validated per run, not proved in Flocq (partial); sums whose magnitude overflows binary32 (|R| > 2^100) are outside the statement.",
+        "rule": "pv epochs regrets: policy_vector of an information set with the given stored regrets; distinct = distinct (epochs, regret vector)",
+        "exhaustive": {"quick": False, "thorough": False},
+        "explanation": "policy_vector vs extracted model (binary32 rounding) and the distribution predicates",
+        "trusted_base": ["Model/RegretMatching.v hand written; hooks Profile::verif_from_rows/verif_set_epochs, Blueprint::verif_tree"],
+        "assumptions": ["|regret| <= 2^100"],
+    },
+    "C20": {
+        "harness": ["c20"], "level": "other", "spec_prefix": ["c20_"],
+        "technique": "differential check over repeated, concurrent and cross-tree invocations + chi-square test across epochs; the Coq part is the sampler-measure lemma (C10) and the by-construction determinism of the model",
+        "level_text": "The sampler's choice at (epoch, information set) is compared across repeated calls, three concurrent threads and different trees of the same solver (any disagreement is a violation); across 12,000 (40,000) epochs at fixed information sets the choices are tested against the profile's weights (chi-square, 6.5 sigma); chance nodes keep one branch; k-means seeding is run twice and under 1, 4 and 16 rayon threads and compared bit for bit. In the Coq model these are functions, so the theorem content is the interval lemma for the inverse-CDF sampler (Props/C10.v) - determinism of the real code is runtime behaviour no theorem about the model can show.",
+        "level_note": "Runtime behaviour the model cannot exhibit: thread-local RNG state, hasher seeding (DefaultHasher keys), rayon scheduling. rand::SmallRng / WeightedIndex / SipHash are trusted.",
+        "rule": "samp epoch bucket node: explore_one asked 2x + 3 threads; same (epoch, bucket) across trees must agree; sampdist: choice frequencies over epochs vs weights; init: Layer::init twice and across thread counts",
+        "exhaustive": {"quick": False, "thorough": False},
+        "explanation": "Differential testing of determinism across invocations, threads and trees, plus a goodness-of-fit test of the sampling distribution; partial: no theorem covers the runtime sources of nondeterminism.",
+        "trusted_base": ["hooks Blueprint::verif_tree, Profile::verif_from_rows/verif_set_epochs, Layer::verif_*"],
+        "assumptions": ["statistical threshold 6.5 sigma"],
+    },
     "C15": {
         "harness": "c15", "level": "proof",
         "technique": "Coq theorems (round trips, injectivity, key-set NoDup by reflection) over an executable codec model + per-run model/implementation correspondence on integer codes",
